@@ -159,6 +159,12 @@ def _entries(node, rng):
     return e
 
 
+# numbers that only some formats can spell (a format that cannot writes something its reader refuses)
+SPECIAL = {"json": {"inf": "1e999", "neginf": "-1e999", "nan": "NaN"},
+           "json5": {"inf": "Infinity", "neginf": "-Infinity", "nan": "NaN"},
+           "yaml": {"inf": ".inf", "neginf": "-.inf", "nan": ".nan"}}
+
+
 def node_json(node, rng=None, indent=0):
     t = node["t"]
     if t == "str":
@@ -167,10 +173,8 @@ def node_json(node, rng=None, indent=0):
         return node["v"]
     if t == "rawsym":
         return text_of(node["s"])
-    if t == "rawsym":
-        return text_of(node["s"])
-    if t == "rawsym":
-        return text_of(node["s"])
+    if t == "special":
+        return SPECIAL["json"][node["v"]]
     if t == "seq":
         return "[" + ", ".join(node_json(x, rng, indent + 1) for x in node["e"]) + "]"
     if t == "map":
@@ -199,10 +203,8 @@ def node_json5(node, rng=None, indent=0):
         return node["v"]
     if t == "rawsym":
         return text_of(node["s"])
-    if t == "rawsym":
-        return text_of(node["s"])
-    if t == "rawsym":
-        return text_of(node["s"])
+    if t == "special":
+        return SPECIAL["json5"][node["v"]]
     if t == "seq":
         return "[" + ", ".join(node_json5(x, rng, indent + 1) for x in node["e"]) + ",]" if node["e"] else "[]"
     if t == "map":
@@ -226,10 +228,8 @@ def node_yaml(node, rng=None, indent=0):
         return node["v"]
     if t == "rawsym":
         return text_of(node["s"])
-    if t == "rawsym":
-        return text_of(node["s"])
-    if t == "rawsym":
-        return text_of(node["s"])
+    if t == "special":
+        return SPECIAL["yaml"][node["v"]]
     if t == "seq":
         return "[" + ", ".join(_yaml_flow(x) for x in node["e"]) + "]"
     if t == "map":
@@ -344,7 +344,7 @@ def materialise(case, dirpath, fmt="json", perm_seed=None, ext=None):
 _built = set()
 
 
-def cargo_build(package, features=(), bin_name=None, variant=None, timeout=3000):
+def cargo_build(package, features=(), bin_name=None, variant=None, timeout=3000, no_default=False):
     """Builds a driver from /repo's current working tree; returns the path of a private copy
     of the binary (so that several feature variants can coexist)."""
     key = (package, tuple(features), variant)
@@ -358,6 +358,8 @@ def cargo_build(package, features=(), bin_name=None, variant=None, timeout=3000)
     if not os.path.exists(lock):
         shutil.copy(os.path.join(REPO, "Cargo.lock"), lock)
     cmd = ["cargo", "build", "--offline", "-p", package]
+    if no_default:
+        cmd += ["--no-default-features"]
     if features:
         cmd += ["--features", ",".join(features)]
     env = dict(os.environ)
